@@ -1,13 +1,19 @@
 (* C03, counter hand-off: in every execution of CounterModel, instrumented by Model/HbCounter.v (which credits ONLY
    the memory orders requested in the C source, Gen/Sites.v), the view of the thread whose nsync_counter_add changes the
    counter (in particular: zeroes it), at its compare-and-swap, is contained in the view of every thread at every later
-   return of nsync_counter_wait / nsync_counter_value / nsync_counter_add; and the view of an adder at its V on a
-   waiter's semaphore is contained in the view of that waiter at every later successful P.
+   return of nsync_counter_wait / nsync_counter_value / nsync_counter_add (Part 5); and the view of an adder at its
+   ATM_STORE_REL (&nw->waiting, 0) on the record of a waiter (add#5) is contained in the view of that waiter after its
+   next ATM_LOAD_ACQ (&nw->waiting) in counter_dequeue (dequeue#2), which reads that 0 (Part 7: the wake-up edge; it
+   rests on the proved invariant [Q]: c->waiters has no duplicates, its members are inside nsync_wait_n with their flag
+   set).  Nothing is credited to the sleeping primitive.
    Part 1 is the only place where the regenerated inventory is evaluated: if the CAS of nsync_counter_add lost its
    release or its acquire half, or one of the loads of c->value whose result a call returns (add#1, value#1, wait#1,
    ready_time#2) or on which a return under counter_mu relies (dequeue#1) became relaxed, or a plain store to
-   c->value appeared in a modelled function, [counter_orders] fails and with it everything below; likewise
-   [sem_orders] for the CAS of nsync_mu_semaphore_v (release) and of nsync_mu_semaphore_p / _p_with_deadline (acquire).
+   c->value appeared in a modelled function, or add#5 lost its release, or dequeue#2 its acquire, or one of them moved
+   to another field, [counter_orders] fails and with it everything below.
+   SECONDARY, futex flavour of the semaphore only (Part 6, [sem_orders] / [counter_sem_handoff]): the adder's view at
+   its V is contained in the waiter's view at every later successful P, under the orders of the compare-and-swaps of
+   nsync_semaphore_futex.c.  Not part of the C03 claim; the other semaphore flavours have no such sites.
    No axioms, nothing admitted. *)
 From Coq Require Import List ZArith Bool String Lia PeanoNat Arith.
 From NsyncBase Require Import CSem.
@@ -29,13 +35,26 @@ Lemma counter_orders :
   (* the loads of c->value a return relies on are acquire *)
   Forall (fun s => has_acq (corder Kload s) = true /\ forall u, cloc s u = LValue) [101; 201; 301; 402; 601] /\
   (* no plain store of a modelled function is to c->value *)
-  Forall (fun s => forall u, cloc s u <> LValue) [105; 401; 502; 503; 603].
+  Forall (fun s => forall u, cloc s u <> LValue) [105; 401; 502; 503; 603] /\
+  (* the wake-up: add#5 is a RELEASE store to nw->waiting of the popped record, dequeue#2 an ACQUIRE load of the
+     caller's own nw->waiting *)
+  has_rel (corder Kstore 105) = true /\ (forall u, cloc 105 u = LWaiting u) /\
+  has_acq (corder Kload 602) = true /\ (forall u, cloc 602 u = LWaiting u) /\
+  (* the other stores to a `waiting' flag (enqueue#2, enqueue#3, dequeue#3) are to the record of the thread named in
+     the event (whatever their order: they are relaxed, the proof does not look), and ready_time#1 is to c->waited *)
+  Forall (fun s => forall u, cloc s u = LWaiting u) [502; 503; 603] /\
+  (forall u, cloc 401 u = LWaited).
 Proof.
   split; [vm_compute; reflexivity|]. split; [vm_compute; reflexivity|]. split; [intros u; vm_compute; reflexivity|].
-  split; repeat constructor; try (vm_compute; reflexivity); intros u; vm_compute; discriminate.
+  split; [repeat constructor; try (vm_compute; reflexivity); intros u; vm_compute; discriminate|].
+  split; [repeat constructor; intros u; vm_compute; discriminate|].
+  split; [vm_compute; reflexivity|]. split; [intros u; vm_compute; reflexivity|].
+  split; [vm_compute; reflexivity|]. split; [intros u; vm_compute; reflexivity|].
+  split; [repeat constructor; intros u; vm_compute; reflexivity | intros u; vm_compute; reflexivity].
 Qed.
 
-(* the futex semaphore: V's compare-and-swap is a release, P's (both variants) an acquire *)
+(* FUTEX FLAVOUR ONLY (secondary, not part of the C03 claim): in nsync_semaphore_futex.c V's compare-and-swap is a
+   release, P's (both variants) an acquire; used by [counter_sem_handoff] only *)
 Lemma sem_orders : has_rel sem_v_order = true /\ has_acq sem_p_order = true.
 Proof. split; vm_compute; reflexivity. Qed.
 
@@ -45,7 +64,20 @@ Lemma value_load s : In s [101; 201; 301; 402; 601] ->
   has_acq (corder Kload s) = true /\ forall u, cloc s u = LValue.
 Proof. destruct counter_orders as (_ & _ & _ & A & _). apply (proj1 (Forall_forall _ _) A). Qed.
 Lemma store_not_value s u : In s [105; 401; 502; 503; 603] -> cloc s u <> LValue.
-Proof. destruct counter_orders as (_ & _ & _ & _ & A). intros H. apply (proj1 (Forall_forall _ _) A s H). Qed.
+Proof. destruct counter_orders as (_ & _ & _ & _ & A & _). intros H. apply (proj1 (Forall_forall _ _) A s H). Qed.
+(* the wake-up pair *)
+Lemma store105 : has_rel (corder Kstore 105) = true /\ forall u, cloc 105 u = LWaiting u.
+Proof. destruct counter_orders as (_ & _ & _ & _ & _ & A & B & _). auto. Qed.
+Lemma load602 : has_acq (corder Kload 602) = true /\ forall u, cloc 602 u = LWaiting u.
+Proof. destruct counter_orders as (_ & _ & _ & _ & _ & _ & _ & A & B & _). auto. Qed.
+Lemma store401 u : cloc 401 u = LWaited.
+Proof. destruct counter_orders as (_ & _ & _ & _ & _ & _ & _ & _ & _ & _ & A). apply A. Qed.
+(* an access the inventory places on a `waiting' field is on the record of the thread the event names *)
+Lemma cloc_waiting s x u : cloc s x = LWaiting u -> u = x.
+Proof.
+  unfold cloc. destruct (csite s) as [y|]; [|discriminate].
+  repeat match goal with |- context [if ?c then _ else _] => destruct c end; try discriminate. congruence.
+Qed.
 
 (* the inventory lookup never yields a semaphore word *)
 Lemma cloc_not_sem s u v : cloc s u <> LSem v.
@@ -55,7 +87,7 @@ Proof.
 Qed.
 
 (* from here on orders and locations are used through the lemmas above only *)
-Local Opaque corder cloc sem_v_order sem_p_order.
+Local Opaque corder cloc sem_v_order sem_p_order wait_n_store_order.
 
 (* ================================================================== *)
 (* Part 2: views and the instrumentation                               *)
@@ -79,6 +111,14 @@ Proof. unfold lupdv. now rewrite loc_eqb_refl. Qed.
 Lemma lupdv_other f l v x : x <> l -> lupdv f l v x = f x.
 Proof. unfold lupdv. intros H. destruct (loc_eqb x l) eqn:E; [apply loc_eqb_eq in E; congruence|reflexivity]. Qed.
 
+(* the folded store of nsync_wait_n: no view changes, and only the release view of the thread's own flag does *)
+Lemma wns_views h t s : cviews (wait_n_store h t s) = cviews h.
+Proof. unfold wait_n_store. destruct (s =? 501); reflexivity. Qed.
+Lemma wns_rel h t s l : l <> LWaiting t -> crel (wait_n_store h t s) l = crel h l.
+Proof. intros H. unfold wait_n_store. destruct (s =? 501); [|reflexivity]. cbn [do_store crel]. apply lupdv_other. exact H. Qed.
+Lemma wns_not501 h t s : s <> 501 -> wait_n_store h t s = h.
+Proof. intros H. unfold wait_n_store. destruct (Z.eqb_spec s 501); [contradiction|reflexivity]. Qed.
+
 Lemma ev_cas_dec (e : ev) : (exists s o n, e = EvCas s o n true) \/ (forall s o n, e <> EvCas s o n true).
 Proof. destruct e as [| |s o n [|]| | | | | |]; try (right; intros; discriminate). left; eauto. Qed.
 
@@ -87,7 +127,8 @@ Lemma hb_others h lab e t u : actor lab = Some t -> u <> t -> cviews (chb_step h
 Proof.
   intros Ha Hu. unfold chb_step. rewrite Ha.
   destruct e as [s v|s x v|s o n [|]|x| | | | |]; unfold do_load, do_store, do_rmw;
-    try destruct (has_acq _); cbn [cviews]; rewrite ?cfupd_other by exact Hu; reflexivity.
+    try destruct (has_acq _); cbn [cviews]; rewrite ?wns_views; cbn [cviews];
+    rewrite ?cfupd_other by exact Hu; reflexivity.
 Qed.
 
 (* a thread's own view only grows *)
@@ -95,7 +136,7 @@ Lemma hb_grows h lab e t : actor lab = Some t -> vle (cviews h t) (cviews (chb_s
 Proof.
   intros Ha. unfold chb_step. rewrite Ha.
   destruct e as [s v|s x v|s o n [|]|x| | | | |]; unfold do_load, do_store, do_rmw;
-    try destruct (has_acq _); cbn [cviews crel]; rewrite ?cfupd_same;
+    try destruct (has_acq _); cbn [cviews crel]; rewrite ?wns_views; cbn [cviews crel]; rewrite ?cfupd_same;
     first [ apply vle_tick
           | eapply HbProof.vle_trans; [apply vle_tick | apply HbProof.vle_join_l] ].
 Qed.
@@ -108,6 +149,7 @@ Proof.
   intros Hc Hs. unfold chb_step. destruct (actor lab) as [t|]; [|reflexivity].
   destruct e as [s v|s x v|s o n [|]|x| | | | |]; unfold do_load, do_store, do_rmw;
     try destruct (has_acq _); try destruct (has_rel _); cbn [cviews crel];
+    rewrite ?wns_rel by discriminate; cbn [cviews crel];
     first [ reflexivity
           | exfalso; eapply Hc; reflexivity
           | apply lupdv_other;
@@ -134,6 +176,7 @@ Lemma hb_value_load h lab t s v :
 Proof.
   intros Ha Hs. destruct (value_load s Hs) as [Hq Hl].
   unfold chb_step. rewrite Ha. unfold do_load. rewrite Hq, Hl. cbn [cviews crel].
+  rewrite wns_views, wns_rel by discriminate. cbn [cviews crel].
   rewrite cfupd_same. apply HbProof.vle_join_r.
 Qed.
 
@@ -398,7 +441,7 @@ Lemma counter_handoff : forall v0 c0 progs sched i j oi oj,
 Proof. intros v0 c0 progs sched i j oi oj tr. subst tr. unfold counter_zeroes. apply counter_handoff_any. Qed.
 
 (* ================================================================== *)
-(* Part 6: the hand-off through the semaphore, and program order        *)
+(* Part 6: (secondary, futex flavour only) the semaphore; program order *)
 (* ================================================================== *)
 Lemma do_rmw_mono h t l o x : vle (crel h x) (crel (do_rmw h t l o) x).
 Proof.
@@ -413,7 +456,7 @@ Proof.
   set (h0 := mk_chb _ _). assert (H0 : vle r (crel h0 (LSem u))) by exact Hr. clearbody h0.
   destruct e as [s v|s x v|s o n [|]|x| | | | |];
     try (eapply HbProof.vle_trans; [exact H0 | apply do_rmw_mono]); try exact H0.
-  - unfold do_load. destruct (has_acq _); exact H0.
+  - unfold do_load. destruct (has_acq _); cbn [crel]; rewrite wns_rel by discriminate; exact H0.
   - unfold do_store. cbn [crel]. rewrite lupdv_other; [exact H0|]. intros E. symmetry in E. revert E. apply cloc_not_sem.
 Qed.
 
@@ -444,8 +487,8 @@ Proof.
     + eapply IH; [|exact Hj|exact Hw]. apply sem_keep. exact Hr.
 Qed.
 
-(* a signal before the woken waiter's return: the adder's view at its V on thread u's semaphore is contained in
-   the view of thread u at every later successful P *)
+(* futex flavour only: the adder's view at its V on thread u's semaphore is contained in the view of thread u at every
+   later successful P *)
 Lemma wake_gen : forall sched w h i j oi oj u,
   nth_error (run_hb_counter w h sched) i = Some oi -> nth_error (run_hb_counter w h sched) j = Some oj -> (i < j)%nat ->
   counter_posts u oi -> counter_woken u oj -> vle (co_view oi) (co_view oj).
@@ -463,7 +506,10 @@ Proof.
     + eapply IH; [exact Hi | exact Hj | lia | exact Hp | exact Hw].
 Qed.
 
-Lemma counter_wake_handoff : forall v0 c0 progs sched i j oi oj u,
+(* FUTEX FLAVOUR ONLY: credits the compare-and-swap orders of platform/linux/src/nsync_semaphore_futex.c; NOT part of
+   the C03 claim, which credits nothing to the sleeping primitive; other semaphore flavours (mutex/condvar, sem_t) have
+   no such sites.  The wake-up edge of C03 is [counter_wake_handoff] in Part 7 *)
+Lemma counter_sem_handoff : forall v0 c0 progs sched i j oi oj u,
   let tr := run_hb_counter (init v0 c0 progs) chb0 sched in
   nth_error tr i = Some oi -> nth_error tr j = Some oj -> (i < j)%nat ->
   counter_posts u oi -> counter_woken u oj ->
@@ -512,3 +558,454 @@ Lemma counter_program_order : forall v0 c0 progs sched i j oi oj t,
   actor (co_lab oi) = Some t -> actor (co_lab oj) = Some t ->
   vle (co_view oi) (co_view oj).
 Proof. intros v0 c0 progs sched i j oi oj t tr. subst tr. apply program_order_gen. Qed.
+
+(* ================================================================== *)
+(* Part 7: the wake-up hand-off through nw->waiting (add#5 -> dequeue#2) *)
+(* ================================================================== *)
+(* what one [exec] step does to c->waiters, to the `waiting' flags and to the pc of the stepping thread, and which
+   event it emits, pc by pc *)
+Definition quiet (w w' : world) (t : nat) (e : ev) : Prop :=
+  waiters w' = waiters w /\ waiting w' = waiting w /\
+  (forall s x v, e = EvStore s x v -> s = 401) /\ (forall s v, e = EvLoad s v -> s <> 501 /\ s <> 602).
+
+Definition shape (w w' : world) (t : nat) (e : ev) : Prop :=
+  match pc (get w t) with
+  | AddStore d v =>
+      match waiters w with
+      | [] => quiet w w' t e
+      | u :: rest => waiters w' = rest /\ waiting w' = fupd (waiting w) u nsync_counter_add_store1_new /\
+                     e = EvStore 105 u nsync_counter_add_store1_new
+      end
+  | WEnq dl => waiters w' = waiters w /\ waiting w' = fupd (waiting w) t 0 /\ (exists v, e = EvLoad 501 v)
+  | WEnqStore1 dl => waiters w' = waiters w ++ [t] /\ waiting w' = fupd (waiting w) t counter_enqueue_store1_new /\
+                     pc (get w' t) = WLoopStore dl /\ e = EvStore 502 t counter_enqueue_store1_new
+  | WEnqStore2 dl => waiters w' = waiters w /\ waiting w' = fupd (waiting w) t counter_enqueue_store2_new /\
+                     e = EvStore 503 t counter_enqueue_store2_new
+  | WLoopStore dl => quiet w w' t e /\ pc (get w' t) = WLoopLoad dl
+  | WLoopLoad dl => quiet w w' t e /\ (pc (get w' t) = WP dl \/ pc (get w' t) = WDeq dl)
+  | WP dl => quiet w w' t e /\ pc (get w' t) = WLoopStore dl
+  | WDeq dl => quiet w w' t e /\ exists v, pc (get w' t) = WDeqLoad dl v
+  | WDeqLoad dl v => waiters w' = waiters w /\ waiting w' = waiting w /\ e = EvLoad 602 (waiting w t) /\
+                     (waiting w t <> 0 -> pc (get w' t) = WDeqStore dl v)
+  | WDeqStore dl v => waiters w' = unlink t (waiters w) /\ waiting w' = fupd (waiting w) t counter_dequeue_store1_new /\
+                      e = EvStore 603 t counter_dequeue_store1_new
+  | _ => quiet w w' t e
+  end.
+
+Lemma quiet_same w t e :
+  (forall s x v, e <> EvStore s x v) -> (forall s v, e <> EvLoad s v) -> quiet w w t e.
+Proof.
+  intros H1 H2. unfold quiet. repeat split; auto.
+  - intros s x v E. exfalso. eapply H1. exact E.
+  - exfalso. eapply H2. eassumption.
+  - exfalso. eapply H2. eassumption.
+Qed.
+
+Ltac quiet_tac :=
+  unfold quiet; cbn;
+  split; [reflexivity|]; split; [reflexivity|];
+  split; [ intros ? ? ? E; first [discriminate E | injection E as <- _ _; reflexivity]
+         | intros ? ? E; first [discriminate E | injection E as <- _; split; discriminate] ].
+
+Lemma exec_shape w t : shape w (fst (exec w t)) t (snd (exec w t)).
+Proof.
+  unfold shape. destruct (pc (get w t)) eqn:Hpc0.
+  1: { unfold exec. rewrite Hpc0. apply quiet_same; intros; discriminate. }
+  21: { unfold exec. rewrite Hpc0. apply quiet_same; intros; discriminate. }
+  all: assert (L : live w t) by (apply live_of_pc; rewrite Hpc0; discriminate).
+  all: unfold exec; rewrite Hpc0;
+       unfold after_cas, after_chk, after_deq, drain, finish_add, crash, ret; brk; cbn [fst snd].
+  all: try quiet_tac.
+  all: rewrite ?get_set_pc by (unfold live in *; cbn; exact L).
+  all: repeat match goal with
+         | |- quiet _ _ _ _ /\ _ => split; [quiet_tac|]
+         | |- _ /\ _ => split
+         end; try reflexivity; eauto.
+  all: intros Hnz; exfalso; apply Hnz;
+       match goal with H : negb (?x =? 0) = false |- _ => destruct (Z.eqb_spec x 0); [assumption | discriminate H] end.
+Qed.
+
+Lemma exec_others w t u : u <> t -> get (fst (exec w t)) u = get w u.
+Proof. apply exec_cls. Qed.
+
+(* the pcs of a thread whose record may be on c->waiters: from the return of counter_enqueue to the end of
+   counter_dequeue *)
+Definition wpc (p : cpc) : bool :=
+  match p with WLoopStore _ | WLoopLoad _ | WP _ | WDeq _ | WDeqLoad _ _ | WDeqStore _ _ => true | _ => false end.
+(* c->waiters has no duplicates; a record on it belongs to a thread inside nsync_wait_n, and its flag is set *)
+Definition Q (w : world) : Prop :=
+  NoDup (waiters w) /\ forall u, In u (waiters w) -> wpc (pc (get w u)) = true /\ waiting w u <> 0.
+
+Lemma NoDup_snoc {A} (l : list A) x : NoDup l -> ~ In x l -> NoDup (l ++ [x]).
+Proof.
+  induction l as [|y l IH]; intros ND Hx; cbn.
+  - constructor; [intros []|constructor].
+  - inversion ND as [|? ? Hy ND']; subst. constructor.
+    + intros H. apply in_app_or in H. destruct H as [H|[H|[]]]; [contradiction|]. subst. apply Hx. left. reflexivity.
+    + apply IH; [exact ND'|]. intros H. apply Hx. right. exact H.
+Qed.
+
+Lemma enq_store_nz : counter_enqueue_store1_new <> 0. Proof. discriminate. Qed.
+
+Lemma Q_frame w w' t :
+  Q w -> (forall u, u <> t -> get w' u = get w u) -> waiters w' = waiters w ->
+  (forall u, In u (waiters w) -> waiting w' u = waiting w u) ->
+  (In t (waiters w) -> wpc (pc (get w' t)) = true) -> Q w'.
+Proof.
+  intros [ND HQ] Ho Hw Hg Ht. split; rewrite Hw; [exact ND|].
+  intros u Hu. rewrite (Hg u Hu). destruct (HQ u Hu) as [A B]. split; [|exact B].
+  destruct (Nat.eq_dec u t) as [->|Hne]; [apply Ht; exact Hu | rewrite (Ho u Hne); exact A].
+Qed.
+
+Lemma Q_exec w t : Q w -> Q (fst (exec w t)).
+Proof.
+  intros HQ. pose proof (exec_shape w t) as S. pose proof (exec_others w t) as Ho.
+  destruct HQ as [ND HQ']. assert (HQ : Q w) by (split; assumption).
+  assert (Hnt : wpc (pc (get w t)) = false -> ~ In t (waiters w)).
+  { intros E Hin. destruct (HQ' t Hin) as [A _]. congruence. }
+  set (w' := fst (exec w t)) in *. set (e := snd (exec w t)) in *. clearbody w' e.
+  unfold shape in S. destruct (pc (get w t)) eqn:Hpc;
+    try (destruct S as (Sw & Sg & _); apply (Q_frame w w' t HQ Ho Sw); [intros x _; rewrite Sg; reflexivity|];
+         intros Hin; exfalso; revert Hin; apply Hnt; reflexivity).
+  - (* AddStore *)
+    destruct (waiters w) as [|u rest] eqn:Ew.
+    { destruct S as (Sw & Sg & _). apply (Q_frame w w' t HQ Ho); [congruence | intros x _; rewrite Sg; reflexivity|].
+      rewrite Ew. intros []. }
+    destruct S as (Sw & Sg & _). apply NoDup_cons_iff in ND. destruct ND as [Hu ND']. split; rewrite Sw; [exact ND'|].
+    intros x Hx. destruct (HQ' x (or_intror Hx)) as [A B].
+    assert (x <> t) by (intros ->; rewrite Hpc in A; discriminate A).
+    assert (x <> u) by (intros ->; contradiction).
+    rewrite Ho by assumption. rewrite Sg, cfupd_other by assumption. split; assumption.
+  - (* WEnq *)
+    destruct S as (Sw & Sg & _). apply (Q_frame w w' t HQ Ho Sw).
+    + intros u Hu. rewrite Sg. apply cfupd_other. intros ->. revert Hu. apply Hnt. reflexivity.
+    + intros Hin. exfalso. revert Hin. apply Hnt. reflexivity.
+  - (* WEnqStore1 *)
+    destruct S as (Sw & Sg & Sp & _). split; rewrite Sw.
+    + apply NoDup_snoc; [exact ND | apply Hnt; reflexivity].
+    + intros x Hx. apply in_app_or in Hx. destruct Hx as [Hx|[<-|[]]].
+      * destruct (HQ' x Hx) as [A B]. assert (x <> t) by (intros ->; rewrite Hpc in A; discriminate A).
+        rewrite Ho by assumption. rewrite Sg, cfupd_other by assumption. split; assumption.
+      * rewrite Sp, Sg, cfupd_same. split; [reflexivity | apply enq_store_nz].
+  - (* WEnqStore2 *)
+    destruct S as (Sw & Sg & _). apply (Q_frame w w' t HQ Ho Sw).
+    + intros u Hu. rewrite Sg. apply cfupd_other. intros ->. revert Hu. apply Hnt. reflexivity.
+    + intros Hin. exfalso. revert Hin. apply Hnt. reflexivity.
+  - (* WLoopStore *)
+    destruct S as ((Sw & Sg & _) & Sp). apply (Q_frame w w' t HQ Ho Sw); [intros x _; rewrite Sg; reflexivity|].
+    intros _. rewrite Sp. reflexivity.
+  - (* WLoopLoad *)
+    destruct S as ((Sw & Sg & _) & Sp). apply (Q_frame w w' t HQ Ho Sw); [intros x _; rewrite Sg; reflexivity|].
+    intros _. destruct Sp as [-> | ->]; reflexivity.
+  - (* WP *)
+    destruct S as ((Sw & Sg & _) & Sp). apply (Q_frame w w' t HQ Ho Sw); [intros x _; rewrite Sg; reflexivity|].
+    intros _. rewrite Sp. reflexivity.
+  - (* WDeq *)
+    destruct S as ((Sw & Sg & _) & (v & Sp)). apply (Q_frame w w' t HQ Ho Sw); [intros x _; rewrite Sg; reflexivity|].
+    intros _. rewrite Sp. reflexivity.
+  - (* WDeqLoad *)
+    destruct S as (Sw & Sg & _ & Sp). apply (Q_frame w w' t HQ Ho Sw); [intros x _; rewrite Sg; reflexivity|].
+    intros Hin. destruct (HQ' t Hin) as [_ B]. rewrite (Sp B). reflexivity.
+  - (* WDeqStore *)
+    destruct S as (Sw & Sg & _). split; rewrite Sw.
+    + unfold unlink. apply NoDup_filter. exact ND.
+    + intros x Hx. unfold unlink in Hx. apply filter_In in Hx. destruct Hx as [Hx Hne].
+      apply negb_true_iff, Nat.eqb_neq in Hne.
+      destruct (HQ' x Hx) as [A B]. rewrite Ho by assumption. rewrite Sg, cfupd_other by assumption. split; assumption.
+Qed.
+
+Lemma Q_begin w t : Q w -> Q (begin_call w t).
+Proof.
+  intros HQ. destruct (begin_shared w t) as (_ & _ & _ & B4 & _ & _ & B7).
+  apply (Q_frame w _ t HQ); [intros u Hu; apply begin_others; exact Hu | exact B4 | intros u _; rewrite B7; reflexivity|].
+  intros Hin. destruct HQ as [_ HQ]. destruct (HQ t Hin) as [A _].
+  rewrite begin_idle; [exact A|]. intros E. rewrite E in A. discriminate A.
+Qed.
+
+Lemma Q_step w lab : Q w -> Q (fst (step w lab)).
+Proof.
+  intros HQ. destruct lab as [t|t|d]; cbn [step].
+  - destruct (enabled_pc (begin_call w t) t (pc (get (begin_call w t) t))); [|exact HQ].
+    apply Q_exec, Q_begin, HQ.
+  - destruct (pc (get w t)) eqn:Hpc; try exact HQ. destruct dl as [z|]; [|exact HQ].
+    destruct (z <=? clock w); [|exact HQ]. cbn [fst].
+    assert (L : live w t) by (apply live_of_pc; rewrite Hpc; discriminate).
+    apply (Q_frame w _ t HQ); [cls_others | reflexivity | reflexivity |].
+    intros _. rewrite get_set_pc by (unfold live in *; cbn; exact L). reflexivity.
+  - exact HQ.
+Qed.
+
+Lemma Q_init v0 c0 progs : Q (init v0 c0 progs).
+Proof. split; cbn; [constructor | intros u []]. Qed.
+
+(* the state of a woken waiter u between the adder's ATM_STORE_REL (&nw->waiting, 0) and its own load of the flag in
+   counter_dequeue: its record is off the list, it is between the return of counter_enqueue and that load, the flag is 0 *)
+Definition wpc5 (p : cpc) : bool :=
+  match p with WLoopStore _ | WLoopLoad _ | WP _ | WDeq _ | WDeqLoad _ _ => true | _ => false end.
+Definition R (u : nat) (w : world) : Prop :=
+  ~ In u (waiters w) /\ wpc5 (pc (get w u)) = true /\ waiting w u = 0.
+(* event e of thread t does not write nw->waiting of thread u's record *)
+Definition untouched (u t : nat) (e : ev) : Prop :=
+  (forall s x v, e = EvStore s x v -> s = 401 \/ x <> u) /\ (forall v, e = EvLoad 501 v -> t <> u).
+
+Lemma quiet_untouched w w' t e u : quiet w w' t e -> untouched u t e.
+Proof.
+  intros (_ & _ & A & B). split.
+  - intros s x v E. left. eapply A. exact E.
+  - intros v E. exfalso. destruct (B _ _ E) as [C _]. apply C. reflexivity.
+Qed.
+
+Lemma R_frame u w w' : R u w -> get w' u = get w u -> waiters w' = waiters w -> waiting w' = waiting w -> R u w'.
+Proof. intros (A & B & C) H1 H2 H3. unfold R. rewrite H1, H2, H3. auto. Qed.
+
+Lemma R_exec u w t :
+  R u w -> ~ (t = u /\ exists x, snd (exec w t) = EvLoad 602 x) ->
+  R u (fst (exec w t)) /\ untouched u t (snd (exec w t)).
+Proof.
+  intros HR Hn. pose proof (exec_shape w t) as S. pose proof (exec_others w t) as Ho.
+  set (w' := fst (exec w t)) in *. set (e := snd (exec w t)) in *. clearbody w' e.
+  destruct HR as (Rw & Rp & Rg). unfold shape in S.
+  destruct (Nat.eq_dec t u) as [->|Hne].
+  - (* the waiter itself *)
+    destruct (pc (get w u)) eqn:Hpc; try discriminate Rp.
+    + destruct S as (S & Sp). split; [|eapply quiet_untouched; exact S].
+      destruct S as (Sw & Sg & _). unfold R. rewrite Sw, Sg, Sp. auto.
+    + destruct S as (S & Sp). split; [|eapply quiet_untouched; exact S].
+      destruct S as (Sw & Sg & _). unfold R. rewrite Sw, Sg. destruct Sp as [-> | ->]; auto.
+    + destruct S as (S & Sp). split; [|eapply quiet_untouched; exact S].
+      destruct S as (Sw & Sg & _). unfold R. rewrite Sw, Sg, Sp. auto.
+    + destruct S as (S & (x & Sp)). split; [|eapply quiet_untouched; exact S].
+      destruct S as (Sw & Sg & _). unfold R. rewrite Sw, Sg, Sp. auto.
+    + exfalso. apply Hn. split; [reflexivity|]. destruct S as (_ & _ & E & _). eexists. exact E.
+  - (* another thread *)
+    assert (Hu : get w' u = get w u) by (apply Ho; congruence).
+    assert (HR : R u w) by (repeat split; assumption).
+    destruct (pc (get w t)) eqn:Hpc;
+      try (split; [destruct S as (Sw & Sg & _); apply (R_frame u w w' HR Hu Sw Sg) | eapply quiet_untouched; exact S]);
+      try (destruct S as (S & _); split; [destruct S as (Sw & Sg & _); apply (R_frame u w w' HR Hu Sw Sg)
+                                         | eapply quiet_untouched; exact S]).
+    + (* AddStore *)
+      destruct (waiters w) as [|x rest] eqn:Ew.
+      { split; [destruct S as (Sw & Sg & _); apply (R_frame u w w' HR Hu); [congruence | exact Sg]
+               | eapply quiet_untouched; exact S]. }
+      destruct S as (Sw & Sg & Se). assert (x <> u) by (intros ->; apply Rw; left; reflexivity).
+      split.
+      * unfold R. rewrite Hu, Sw, Sg, cfupd_other by congruence. repeat split; auto. intros H1. apply Rw. right. exact H1.
+      * split; [intros s y v' E; rewrite Se in E; injection E as _ <- _; right; assumption
+               | intros v' E; rewrite Se in E; discriminate E].
+    + (* WEnq *)
+      destruct S as (Sw & Sg & (v & Se)). split.
+      * unfold R. rewrite Hu, Sw, Sg, cfupd_other by congruence. auto.
+      * split; [intros s y v' E; rewrite Se in E; discriminate E | intros _ _; exact Hne].
+    + (* WEnqStore1 *)
+      destruct S as (Sw & Sg & _ & Se). split.
+      * unfold R. rewrite Hu, Sw, Sg, cfupd_other by congruence. repeat split; auto.
+        intros H1. apply in_app_or in H1. destruct H1 as [H1|[H1|[]]]; [contradiction | congruence].
+      * split; [intros s y v' E; rewrite Se in E; injection E as _ <- _; right; assumption
+               | intros v' E; rewrite Se in E; discriminate E].
+    + (* WEnqStore2 *)
+      destruct S as (Sw & Sg & Se). split.
+      * unfold R. rewrite Hu, Sw, Sg, cfupd_other by congruence. auto.
+      * split; [intros s y v' E; rewrite Se in E; injection E as _ <- _; right; assumption
+               | intros v' E; rewrite Se in E; discriminate E].
+    + (* WDeqLoad *)
+      destruct S as (Sw & Sg & Se & _). split; [apply (R_frame u w w' HR Hu Sw Sg)|].
+      split; [intros s y v' E; rewrite Se in E; discriminate E | intros v' E; rewrite Se in E; discriminate E].
+    + (* WDeqStore *)
+      destruct S as (Sw & Sg & Se). split.
+      * unfold R. rewrite Hu, Sw, Sg, cfupd_other by congruence. repeat split; auto.
+        intros H1. apply unlink_sub in H1. contradiction.
+      * split; [intros s y v' E; rewrite Se in E; injection E as _ <- _; right; assumption
+               | intros v' E; rewrite Se in E; discriminate E].
+Qed.
+
+Lemma R_begin u w t : R u w -> R u (begin_call w t).
+Proof.
+  intros HR. destruct (begin_shared w t) as (_ & _ & _ & B4 & _ & _ & B7).
+  apply (R_frame u w _ HR); [|exact B4|exact B7].
+  destruct (Nat.eq_dec u t) as [->|Hne]; [|apply begin_others; exact Hne].
+  destruct HR as (_ & A & _). rewrite begin_idle; [reflexivity|]. intros E. rewrite E in A. discriminate A.
+Qed.
+
+Lemma untouched_none u t e :
+  (forall s x v, e <> EvStore s x v) -> (forall s v, e <> EvLoad s v) -> untouched u t e.
+Proof. intros H1 H2. split; [intros s x v E; exfalso; eapply H1; exact E | intros v E; exfalso; eapply H2; exact E]. Qed.
+
+(* R is kept by every step that is not u's load of its flag in counter_dequeue, and no such step writes the flag *)
+Lemma R_step u w lab :
+  R u w -> ~ (actor lab = Some u /\ exists x, snd (step w lab) = EvLoad 602 x) ->
+  R u (fst (step w lab)) /\ forall t, actor lab = Some t -> untouched u t (snd (step w lab)).
+Proof.
+  intros HR Hn. destruct lab as [t|t|d]; cbn [step actor] in *.
+  - destruct (enabled_pc (begin_call w t) t (pc (get (begin_call w t) t))).
+    2:{ split; [exact HR|]. intros t0 _. apply untouched_none; intros; discriminate. }
+    destruct (R_exec u (begin_call w t) t (R_begin u w t HR)) as [A B].
+    + intros [-> H]. apply Hn. split; [reflexivity | exact H].
+    + split; [exact A|]. intros t0 E. injection E as <-. exact B.
+  - assert (U : forall t0 : nat, Some t = Some t0 -> untouched u t0 EvTimeout /\ untouched u t0 EvBlocked).
+    { intros t0 _. split; apply untouched_none; intros; discriminate. }
+    destruct (pc (get w t)) eqn:Hpc; try (split; [exact HR | intros t0 E; apply (U t0 E)]).
+    destruct dl as [z|]; [|split; [exact HR | intros t0 E; apply (U t0 E)]].
+    destruct (z <=? clock w); [|split; [exact HR | intros t0 E; apply (U t0 E)]].
+    cbn [fst snd]. split; [|intros t0 E; apply (U t0 E)].
+    assert (L : live w t) by (apply live_of_pc; rewrite Hpc; discriminate).
+    destruct HR as (A & B & C). unfold R. split; [exact A|]. split; [|exact C].
+    destruct (Nat.eq_dec u t) as [->|Hne].
+    + rewrite get_set_pc by (unfold live in *; cbn; exact L). reflexivity.
+    + unfold get. cbn. rewrite nth_lupd_other by congruence. exact B.
+  - split; [exact HR|]. intros t0 E. discriminate E.
+Qed.
+
+(* an event that does not write nw->waiting of u's record takes nothing out of its release view *)
+Lemma flag_keep h lab t e u r :
+  actor lab = Some t -> untouched u t e ->
+  vle r (crel h (LWaiting u)) -> vle r (crel (chb_step h lab e) (LWaiting u)).
+Proof.
+  intros Ha [U1 U2] Hr. unfold chb_step. rewrite Ha.
+  set (h0 := mk_chb _ _). assert (H0 : vle r (crel h0 (LWaiting u))) by exact Hr. clearbody h0.
+  destruct e as [s v|s x v|s o n [|]|x| | | | |];
+    try (eapply HbProof.vle_trans; [exact H0 | apply do_rmw_mono]); try exact H0.
+  - assert (E : crel (wait_n_store h0 t s) (LWaiting u) = crel h0 (LWaiting u)).
+    { destruct (Z.eq_dec s 501) as [->|Hs]; [|rewrite wns_not501 by exact Hs; reflexivity].
+      apply wns_rel. intros E. injection E as E. symmetry in E. revert E. eapply U2. reflexivity. }
+    unfold do_load. destruct (has_acq _); cbn [crel]; rewrite E; exact H0.
+  - unfold do_store. cbn [crel]. rewrite lupdv_other; [exact H0|].
+    intros E. symmetry in E. destruct (U1 s x v eq_refl) as [->|Hx].
+    + rewrite store401 in E. discriminate E.
+    + apply cloc_waiting in E. congruence.
+Qed.
+
+Lemma shape_105 w w' t e u v :
+  shape w w' t e -> e = EvStore 105 u v ->
+  exists d v' rest, pc (get w t) = AddStore d v' /\ waiters w = u :: rest /\ waiters w' = rest /\
+                    waiting w' = fupd (waiting w) u nsync_counter_add_store1_new.
+Proof.
+  intros S E. unfold shape in S.
+  destruct (pc (get w t)) eqn:Hpc;
+    try (exfalso;
+         first [ destruct S as (_ & _ & A & _); specialize (A _ _ _ E); discriminate A
+               | destruct S as ((_ & _ & A & _) & _); specialize (A _ _ _ E); discriminate A
+               | destruct S as (_ & _ & (x & A)); rewrite A in E; discriminate E
+               | destruct S as (_ & _ & _ & A); rewrite A in E; discriminate E
+               | destruct S as (_ & _ & A & _); rewrite A in E; discriminate E
+               | destruct S as (_ & _ & A); rewrite A in E; discriminate E ]).
+  destruct (waiters w) as [|y rest] eqn:Ew.
+  { exfalso. destruct S as (_ & _ & A & _). specialize (A _ _ _ E). discriminate A. }
+  destruct S as (Sw & Sg & Se). rewrite Se in E. injection E as -> _. eauto 8.
+Qed.
+
+Lemma shape_602 w w' t e x : shape w w' t e -> e = EvLoad 602 x -> x = waiting w t.
+Proof.
+  intros S E. unfold shape in S.
+  destruct (pc (get w t)) eqn:Hpc;
+    try (exfalso;
+         first [ destruct S as (_ & _ & _ & A); destruct (A _ _ E) as [_ B]; apply B; reflexivity
+               | destruct S as ((_ & _ & _ & A) & _); destruct (A _ _ E) as [_ B]; apply B; reflexivity
+               | destruct S as (_ & _ & (y & A)); rewrite A in E; discriminate E
+               | destruct S as (_ & _ & _ & A); rewrite A in E; discriminate E
+               | destruct S as (_ & _ & A); rewrite A in E; discriminate E ]).
+  - destruct (waiters w) as [|y rest] eqn:Ew.
+    + exfalso. destruct S as (_ & _ & _ & A). destruct (A _ _ E) as [_ B]. apply B. reflexivity.
+    + exfalso. destruct S as (_ & _ & A). rewrite A in E. discriminate E.
+  - destruct S as (_ & _ & A & _). rewrite A in E. injection E as <-. reflexivity.
+Qed.
+
+(* the adder's release store: it holds counter_mu, so the thread whose record it pops is not inside counter_dequeue *)
+Lemma wake_start w h lab t u v :
+  Inv w -> Q w -> actor lab = Some t -> snd (step w lab) = EvStore 105 u v ->
+  R u (fst (step w lab)) /\ vle (view_of (cnext h w lab) lab) (crel (cnext h w lab) (LWaiting u)).
+Proof.
+  intros I HQ Ha E. split.
+  - destruct lab as [t0|t0|d]; cbn [actor] in Ha; try discriminate Ha; injection Ha as ->; cbn [step] in *.
+    2:{ exfalso. destruct (pc (get w t)); try discriminate E. destruct dl; try discriminate E.
+        destruct (z <=? clock w); discriminate E. }
+    destruct (enabled_pc (begin_call w t) t (pc (get (begin_call w t) t))); [|discriminate E].
+    pose proof (begin_inv w t I) as I1. pose proof (Q_begin w t HQ) as Q1.
+    set (w1 := begin_call w t) in *. clearbody w1.
+    destruct (shape_105 _ _ _ _ _ _ (exec_shape w1 t) E) as (d & v' & rest & Hpc & Ew & Ew' & Eg).
+    destruct Q1 as [ND Q1]. rewrite Ew in ND. apply NoDup_cons_iff in ND. destruct ND as [Hu _].
+    destruct (Q1 u) as [Pu _]; [rewrite Ew; left; reflexivity|].
+    assert (Hne : u <> t) by (intros ->; rewrite Hpc in Pu; discriminate Pu).
+    assert (M : mu w1 = Some t) by (apply holder; [exact I1 | rewrite Hpc; reflexivity]).
+    unfold R. rewrite Ew', Eg, cfupd_same, (exec_others w1 t u Hne). split; [exact Hu|]. split; [|reflexivity].
+    destruct (pc (get w1 u)) eqn:Hpu; try discriminate Pu; try reflexivity.
+    exfalso. assert (M' : mu w1 = Some u) by (apply holder; [exact I1 | rewrite Hpu; reflexivity]). congruence.
+  - unfold cnext, view_of. rewrite E, Ha. destruct store105 as [Hr Hl].
+    unfold chb_step. rewrite Ha. unfold do_store. rewrite Hr, Hl. cbn [cviews crel]. rewrite lupdv_same.
+    apply HbProof.vle_refl.
+Qed.
+
+(* the waiter's acquire load: it reads the 0 the adder stored and joins the release view of its flag *)
+Lemma wake_end w h lab u r x :
+  R u w -> vle r (crel h (LWaiting u)) -> actor lab = Some u -> snd (step w lab) = EvLoad 602 x ->
+  x = 0 /\ vle r (view_of (cnext h w lab) lab).
+Proof.
+  intros (_ & _ & Rg) Hr Ha E. split.
+  - destruct lab as [t0|t0|d]; cbn [actor] in Ha; try discriminate Ha; injection Ha as ->; cbn [step] in *.
+    2:{ exfalso. destruct (pc (get w u)); try discriminate E. destruct dl; try discriminate E.
+        destruct (z <=? clock w); discriminate E. }
+    destruct (enabled_pc (begin_call w u) u (pc (get (begin_call w u) u))); [|discriminate E].
+    rewrite (shape_602 _ _ _ _ _ (exec_shape (begin_call w u) u) E).
+    destruct (begin_shared w u) as (_ & _ & _ & _ & _ & _ & B7). rewrite B7. exact Rg.
+  - unfold cnext, view_of. rewrite E, Ha. destruct load602 as [Hq Hl].
+    unfold chb_step. rewrite Ha. unfold do_load. rewrite Hq, Hl, wns_not501 by discriminate. cbn [cviews crel].
+    rewrite cfupd_same. eapply HbProof.vle_trans; [exact Hr | apply HbProof.vle_join_r].
+Qed.
+
+Lemma wake_later : forall sched w h j oj u r,
+  R u w -> vle r (crel h (LWaiting u)) ->
+  nth_error (run_hb_counter w h sched) j = Some oj -> counter_dequeue_load u oj ->
+  (forall k ok, (k < j)%nat -> nth_error (run_hb_counter w h sched) k = Some ok -> ~ counter_dequeue_load u ok) ->
+  co_ev oj = EvLoad 602 0 /\ vle r (co_view oj).
+Proof.
+  induction sched as [|lab rest IH]; intros w h j oj u r HR Hr Hj Hl Hfirst.
+  - destruct j; discriminate Hj.
+  - rewrite run_hb_counter_cons in Hj, Hfirst. destruct j as [|j]; cbn [nth_error] in Hj.
+    + injection Hj as <-. destruct Hl as (x & He & Ha). cbn [co_ev co_lab co_view] in *.
+      destruct (wake_end w h lab u r x HR Hr Ha He) as [-> A]. split; [exact He | exact A].
+    + assert (Hn : ~ (actor lab = Some u /\ exists x, snd (step w lab) = EvLoad 602 x)).
+      { intros [Ha (x & He)]. apply (Hfirst 0%nat _ (Nat.lt_0_succ j) eq_refl). exists x. split; assumption. }
+      destruct (R_step u w lab HR Hn) as [HR' Hu].
+      apply (IH (fst (step w lab)) (cnext h w lab) j oj u r HR'); [|exact Hj|exact Hl|].
+      * unfold cnext. destruct (actor lab) as [t|] eqn:Ha.
+        -- apply (flag_keep h lab t _ u r Ha (Hu t eq_refl) Hr).
+        -- unfold chb_step. rewrite Ha. exact Hr.
+      * intros k ok Hk Hnk. apply (Hfirst (S k) ok); [lia | exact Hnk].
+Qed.
+
+Lemma wake_gen2 : forall sched w h i j oi oj u,
+  Inv w -> Q w ->
+  nth_error (run_hb_counter w h sched) i = Some oi -> nth_error (run_hb_counter w h sched) j = Some oj -> (i < j)%nat ->
+  counter_wakes u oi -> counter_dequeue_load u oj ->
+  (forall k ok, (i < k < j)%nat -> nth_error (run_hb_counter w h sched) k = Some ok -> ~ counter_dequeue_load u ok) ->
+  co_ev oj = EvLoad 602 0 /\ vle (co_view oi) (co_view oj).
+Proof.
+  induction sched as [|lab rest IH]; intros w h i j oi oj u I HQ Hi Hj Hlt Hw Hl Hfirst.
+  - destruct i; discriminate Hi.
+  - rewrite run_hb_counter_cons in Hi, Hj, Hfirst. destruct j as [|j]; [lia|]. cbn [nth_error] in Hj.
+    destruct i as [|i]; cbn [nth_error] in Hi.
+    + injection Hi as <-. destruct Hw as (v & He). cbn [co_ev co_view] in *.
+      destruct (actor lab) as [t|] eqn:Ha.
+      2:{ destruct lab; try discriminate Ha. cbn in He. discriminate He. }
+      destruct (wake_start w h lab t u v I HQ Ha He) as [HR Hr].
+      apply (wake_later rest _ _ j oj u _ HR Hr Hj Hl).
+      intros k ok Hk Hnk. apply (Hfirst (S k) ok); [lia | exact Hnk].
+    + apply (IH (fst (step w lab)) (cnext h w lab) i j oi oj u);
+        [apply step_inv; exact I | apply Q_step; exact HQ | exact Hi | exact Hj | lia | exact Hw | exact Hl |].
+      intros k ok Hk Hnk. apply (Hfirst (S k) ok); [lia | exact Hnk].
+Qed.
+
+(* THE wake-up edge of C03: the adder's ATM_STORE_REL (&nw->waiting, 0) on thread u's record, and thread u's next
+   ATM_LOAD_ACQ (&nw->waiting) in counter_dequeue: the load reads that 0, and the adder's view at the store is contained
+   in the waiter's view after the load.  Credited to the release order of add#5 and the acquire order of dequeue#2 only:
+   no semaphore location is involved *)
+Lemma counter_wake_handoff : forall v0 c0 progs sched i j oi oj u,
+  let tr := run_hb_counter (init v0 c0 progs) chb0 sched in
+  nth_error tr i = Some oi -> nth_error tr j = Some oj -> (i < j)%nat ->
+  counter_wakes u oi -> counter_dequeue_load u oj ->
+  (forall k ok, (i < k < j)%nat -> nth_error tr k = Some ok -> ~ counter_dequeue_load u ok) ->
+  co_ev oj = EvLoad 602 0 /\ vle (co_view oi) (co_view oj).
+Proof.
+  intros v0 c0 progs sched i j oi oj u tr. subst tr.
+  apply wake_gen2; [apply init_inv | apply Q_init].
+Qed.
